@@ -117,7 +117,7 @@ m("c16-no-ignorecase", ["C16", "C18"], RX, '        target = ["(?i)"]', '       
 m("c17-illegal-site-not-invalid-sequence", ["C17"], "moclo/moclo/errors.py",
   "class IllegalSite(InvalidSequence):", "class IllegalSite(MocloError, RuntimeError):", note="needs __init__")
 m("c18-raw-overhang-in-walk", ["C18"], A,
-  "                overhang_next = module.overhang_end().upper()", "                overhang_next = module.overhang_end()")
+  "                overhang_next = Seq(str(module.overhang_end()).upper())", "                overhang_next = Seq(str(module.overhang_end()))")
 m("c19-target-depends-on-backbone-parity", ["C19", "C01"], MOD,
   "        return add_as_source(self.record, (self.record << start)[: end - start])",
   "        return add_as_source(self.record, (self.record << start)[: end - start - (len(self.record) % 7 == 0)])")
